@@ -1190,6 +1190,26 @@ def check():
 """
 
 
+def src_literal_bool():
+    """bool / int Literal values (string independent): literal_repr must render True as True, not as 1 -
+    the generated test compares classes (`value.__class__ is (True).__class__`)"""
+    return header("") + """
+@dataclass
+class A(DataClassDictMixin):
+    x: Literal[True, 2]
+    y: Literal[1, False] = 1
+def check():
+    eq('from_dict True', lambda: A.from_dict({'x': True}).x, True)
+    eq('from_dict 2', lambda: A.from_dict({'x': 2, 'y': False}).y, False)
+    eq('from_dict 1', lambda: A.from_dict({'x': 2, 'y': 1}).y, 1)
+    eq('to_dict', lambda: A(True, False).to_dict(), {'x': True, 'y': False})
+    raises('1 is not True', lambda: A.from_dict({'x': 1}), InvalidFieldValue, 'field_name', 'x')
+    raises('0 is not False', lambda: A.from_dict({'x': 2, 'y': 0}), InvalidFieldValue, 'field_name', 'y')
+    eq('decoder', lambda: BasicDecoder(Literal[True]).decode(True), True)
+    return OUT
+"""
+
+
 def enum_name_ok(s: str) -> bool:
     """names the Enum functional API itself accepts as an ordinary member (it refuses
     _sunder_/dunder names, descriptors and a few reserved words)"""
@@ -1376,6 +1396,15 @@ def oracle(ctx: vlib.Ctx, boost: bool = False):
                          {"entry": "exec(source); check()", "source": src_namedtuple(s, how), "string": s,
                           "position": "namedtuple-as-dict", "observed": fails[:5], "sentinel_hits": len(hits)},
                          {"position": "namedtuple-as-dict", "kind": "string-not-data"})
+    # bool / int Literal values through helpers.literal_repr
+    fails, hits = run_src(src_literal_bool())
+    ctx.count(("literal-bool-int", ""))
+    ctx.hist("positions", "literal-bool-int")
+    if fails or hits:
+        ctx.fail(f"Literal[True, 2] / Literal[1, False]: {fails[:3]}",
+                 {"entry": "exec(source); check()", "source": src_literal_bool(), "string": "", "position": "literal-bool-int",
+                  "observed": fails[:5], "sentinel_hits": len(hits), "expected": "no failures"},
+                 {"position": "literal-bool-int", "kind": "string-not-data"})
     return nfail
 
 
